@@ -26,12 +26,15 @@ K_VIRAL = "generate_sdmx:drops-viral-propagation"
 
 def abstract_script(ast) -> List[Tuple[str, str, Optional[bool]]]:
     from vtlengine import AST
+    from vtlengine.AST.ASTString import _format_reserved_word
     out = []
     for ch in ast.children:
+        # an assignment's name is the result name as ASTString renders it (quoted when it needs quotes): what ast_to_sdmx stores in
+        # Transformation.result since /repo 65c4527
         if isinstance(ch, AST.PersistentAssignment):
-            out.append(("assign", ch.left.value, True))
+            out.append(("assign", _format_reserved_word(ch.left.value), True))
         elif isinstance(ch, AST.Assignment):
-            out.append(("assign", ch.left.value, False))
+            out.append(("assign", _format_reserved_word(ch.left.value), False))
         elif isinstance(ch, AST.DPRuleset):
             out.append(("dp", ch.name, None))
         elif isinstance(ch, AST.HRuleset):
